@@ -199,3 +199,26 @@ Theorem gen_tag_names_one_to_one : forall a b, enum_pass gen_dec_tag a = enum_pa
 Proof. apply enum_pass_inj. vm_compute. reflexivity. Qed.
 Theorem gen_form_names_one_to_one : forall a b, enum_pass gen_dec_form a = enum_pass gen_dec_form b -> a = b.
 Proof. apply enum_pass_inj. vm_compute. reflexivity. Qed.
+
+(* ------------------------------------------------------------------ form-name tuples written inline in the code *)
+Definition std_unit_ref_names : list string :=
+  ["DW_FORM_ref1"; "DW_FORM_ref2"; "DW_FORM_ref4"; "DW_FORM_ref8"; "DW_FORM_ref"; "DW_FORM_ref_udata"].
+Definition std_addrx_names : list string :=
+  ["DW_FORM_addrx"; "DW_FORM_addrx1"; "DW_FORM_addrx2"; "DW_FORM_addrx3"; "DW_FORM_addrx4"].
+Definition std_strx_names : list string :=
+  ["DW_FORM_strx"; "DW_FORM_strx1"; "DW_FORM_strx2"; "DW_FORM_strx3"; "DW_FORM_strx4"].
+
+(* the three copies of the unit-relative reference tuple agree and are the unit-relative reference forms
+   (DW_FORM_ref is the pre-standard name of code 2); the section-relative test is DW_FORM_ref_addr everywhere;
+   the value translation tests the standard's index forms, in an order in which no two tests overlap *)
+Theorem gen_form_name_sets :
+  gen_die_ref_unit_forms = std_unit_ref_names /\ gen_cu_sibling_unit_forms = std_unit_ref_names /\
+  gen_tu_sibling_unit_forms = std_unit_ref_names /\
+  gen_cu_sibling_addr_form = "DW_FORM_ref_addr" /\ gen_tu_sibling_addr_form = "DW_FORM_ref_addr" /\
+  gen_die_ref_addr_pattern = "DW_FORM_ref_addr" /\ gen_die_ref_sig8_pattern = "DW_FORM_ref_sig8" /\
+  gen_die_ref_sup_forms = ["DW_FORM_ref_sup4"; "DW_FORM_ref_sup8"; "DW_FORM_GNU_ref_alt"] /\
+  gen_translate_addrx_forms = std_addrx_names /\ gen_translate_strx_forms = std_strx_names /\
+  gen_translate_chain = [["DW_FORM_strp"]; ["DW_FORM_line_strp"]; ["DW_FORM_GNU_strp_alt"; "DW_FORM_strp_sup"];
+                         ["DW_FORM_flag"]; ["DW_FORM_flag_present"]; std_addrx_names; std_strx_names;
+                         ["DW_FORM_loclistx"]; ["DW_FORM_rnglistx"]].
+Proof. repeat split; reflexivity. Qed.
